@@ -640,7 +640,8 @@ def _f88(vio):
     import re
     case = vio.get("case") or {}
     det = vio.get("detail") or {}
-    if case.get("encodings") != "physical" or vio.get("kind") != "unexpected-error":
+    pstream = det.get("lane") == "P"          # (ak.zip / with_field / concatenate ... broadcast their arguments, too)
+    if not (case.get("encodings") == "physical" or pstream) or vio.get("kind") != "unexpected-error":
         return False
     got = det.get("got") or ""
     return bool(re.search(r"cannot broadcast \w+ of length \d+ with \w+ of length \d+", got)) or \
@@ -921,6 +922,16 @@ def _f115(vio):
     if vio.get("kind") != "outcome-kind-differs" or _op_of(vio).get("op") != "mergemany":
         return False
     return any("dtype not in {boolean, uint8}" in str((det.get(k) or {}).get("msg")) for k in ("A", "B", "C"))
+
+
+@mechanism("F117-with_field-scalar-replaces-only-field")
+def _f117(vio):
+    """ak.with_field(base, value, name) where `name` is the only field of the records: after removing it nothing is
+    left to broadcast the value against - a scalar fails ('content argument must be a Content subtype'), an array
+    becomes a field of one record per outermost entry instead of per innermost record"""
+    det = vio.get("detail") or {}
+    return det.get("lane") == "P" and (det.get("op") or {}).get("op") == "with_field" and \
+        det.get("names") == [det.get("where")] and vio.get("kind") in ("unexpected-error", "wrong-value")
 
 
 @mechanism("F10-reduce-nonlocal")
